@@ -41,6 +41,12 @@ warnings.filterwarnings("ignore")
 
 import pipefunc  # noqa: E402
 
+if os.environ.get("VERIF_STACKS"):  # kill -USR1 <pid> writes every thread's stack to the given file (debugging aid)
+    import faulthandler
+    import signal as _signal
+
+    faulthandler.register(_signal.SIGUSR1, file=open(os.environ["VERIF_STACKS"], "a"), all_threads=True)
+
 assert os.path.abspath(pipefunc.__file__).startswith(REPO + os.sep), (pipefunc.__file__, REPO)
 
 _SCRATCH_OWNER = os.getpid()
